@@ -15,6 +15,7 @@ inductive STerm where
   | atom (s : String)
   | num (n : Nat)
   | fn (f : String) (args : List STerm)
+  | numfn (f : String) (args : List STerm)   -- `7(a)`: the grammar's `atom` includes NUMERAL; see `STerm.hasNumFn`
   | list (items : List STerm)
   | lpair (h t : STerm)
 deriving Repr, Inhabited, BEq
@@ -36,9 +37,20 @@ deriving Repr, Inhabited, BEq
 def STerm.vars : STerm → List String
   | .var n => [n]
   | .fn _ args => (args.attach.map fun ⟨a, _⟩ => a.vars).flatten
+  | .numfn _ args => (args.attach.map fun ⟨a, _⟩ => a.vars).flatten
   | .list items => (items.attach.map fun ⟨a, _⟩ => a.vars).flatten
   | .lpair h t => h.vars ++ t.vars
   | _ => []
+
+/-- A structure whose functor name is a numeral is accepted by the grammar and by the visitor; the
+    clause compiler raises (AttributeError) at the moment it builds code for it, and only then: in
+    a part of a body for which no code is built (`fail, p(7(a))`) it goes unnoticed. -/
+def STerm.hasNumFn : STerm → Bool
+  | .numfn _ _ => true
+  | .fn _ args => args.attach.any fun ⟨a, _⟩ => a.hasNumFn
+  | .list items => items.attach.any fun ⟨a, _⟩ => a.hasNumFn
+  | .lpair h t => h.hasNumFn || t.hasNumFn
+  | _ => false
 
 def Body.vars : Body → List String
   | .call _ args => (args.map STerm.vars).flatten
@@ -61,6 +73,7 @@ def STerm.eval (env : Env) : STerm → Term
   | .atom s => .atom s
   | .num n => .int n
   | .fn f args => .fn f (args.attach.map fun ⟨a, _⟩ => a.eval env)
+  | .numfn f args => .fn f (args.attach.map fun ⟨a, _⟩ => a.eval env)   -- never run: such code is never produced
   | .list items => mkList (items.attach.map fun ⟨a, _⟩ => a.eval env)
   | .lpair h t => .fn "." [h.eval env, t.eval env]
 
